@@ -17,6 +17,8 @@ values in filled cells; only occupancy (> 0) is meaningful.
 """
 from __future__ import annotations
 
+import os
+
 import numpy as np
 
 from vf.models.base import Model
@@ -99,6 +101,70 @@ def _tt(r, c):
 # extra configurations for C10: minimum height with a wide board, minimum width with a tall board
 EXTRA_INSTANCE_CONFIGS = {"x_r4c20": _tt(4, 20), "x_r20c4": _tt(20, 4)}
 
+def _split_clear(g_full_rows):
+    n = int(g_full_rows.size)
+    return n >= 2 and int(g_full_rows.max() - g_full_rows.min()) + 1 > n
+
+
+def split_potential(g):
+    """Number of piece kinds (0..7) that have a placement on board g completing non-adjacent rows at once
+    (plan bias towards the rare 'a row between two cleared rows survives' case)."""
+    P = pieces()
+    kinds = 0
+    for k in range(P.shape[0]):
+        found = False
+        for r in range(4):
+            piece = P[k, r]
+            if piece.any(axis=1).sum() < 3:
+                continue
+            cells = np.argwhere(piece)
+            for x in range(g.shape[1]):
+                if not is_legal(g, piece, x):
+                    continue
+                y = drop(g, piece, x)
+                h = g.copy()
+                for i, j in cells:
+                    h[y + i, x + j] = True
+                if _split_clear(np.flatnonzero(h.all(axis=1))):
+                    found = True
+                    break
+            if found:
+                break
+        kinds += found
+    return kinds
+
+
+def greedy_score(occ, piece, x, lookahead=False):
+    """Heuristic value of a legal placement (plan bias only, never an oracle): complete rows (several at
+    once and non-adjacent ones score extra), few holes, low and flat stack, do not stack to the top; with
+    `lookahead` also prefer boards on which many piece kinds could clear non-adjacent rows next."""
+    y = drop(occ, piece, x)
+    g = occ.copy()
+    for i, j in np.argwhere(piece):
+        g[y + i, x + j] = True
+    full = np.flatnonzero(g.all(axis=1))
+    n = int(full.size)
+    split = _split_clear(full)  # rows cleared by one piece are not contiguous
+    if n:
+        g = np.concatenate([np.zeros((n, g.shape[1]), bool), g[~g.all(axis=1)]], axis=0)
+    R, C = g.shape
+    heights = np.where(g.any(axis=0), R - np.argmax(g, axis=0), 0)
+    holes = int(sum((~g[R - heights[c]:, c]).sum() for c in range(C)))
+    bump = int(np.abs(np.diff(heights)).sum())
+    pot = 30 * split_potential(g) if lookahead else 0
+    danger = 1000 if (n == 0 and heights.max() >= R - 1) else 0
+    return 10 * n * n + (100 if split else 0) + pot - 3 * holes - int(heights.sum()) - bump - danger
+
+
+def _stat(line):
+    """Debug aid: with VF_MODEL_STATS=<file> the model appends one line per observed line clear, so that
+    the reach of the generators can be measured from outside (the drivers have no counter for it)."""
+    path = os.environ.get("VF_MODEL_STATS")
+    if path:
+        with open(path, "a") as f:
+            f.write(line + "\n")
+
+
 class M(Model):
     ENV = "Tetris"
 
@@ -134,6 +200,26 @@ class M(Model):
         if (g < 0).any():
             out.append(("negative grid value", str(int(g.min()))))
         return out
+
+    # ---- plan bias ('solve' mode of the drivers)
+    def solve_action(self, s, r=0):
+        """Greedy line-clearing placement; `r` diversifies: ties among the best placements are broken by
+        r, and every fourth call plays a second-best placement (leaves holes that later give clears of
+        non-adjacent rows).  None when nothing is legal."""
+        idx = self._idx(s)
+        if not (0 <= idx < self.P.shape[0]):
+            return None
+        occ, rots = self._occ(s), self.P[idx]
+        pool = [(int(rr), int(xx)) for rr, xx in np.argwhere(legal_table(occ, rots))]
+        if not pool:
+            return None
+        r = int(r)
+        look = self.C <= 6  # narrow boards: steer towards clears of non-adjacent rows
+        scores = [greedy_score(occ, rots[rr], xx, lookahead=look) for rr, xx in pool]
+        ranks = sorted(set(scores), reverse=True)
+        want = ranks[0] if r % 4 else ranks[min(1, len(ranks) - 1)]
+        group = [a for a, sc in zip(pool, scores) if sc == want]
+        return np.asarray(group[(r // 4) % len(group)], np.int32)
 
     # ---- C04 / C05
     def legal(self, s):
@@ -194,6 +280,8 @@ class M(Model):
                         f"prev {n_prev} now {n_now} num_cols {self.C}"))
         else:
             cleared = diff // self.C
+            if cleared:
+                _stat(f"Tetris invariants clear {cleared} rows={np.flatnonzero(np.asarray(s.full_lines)).tolist()}")
             if ts is not None and float(ts.reward) != REWARDS[cleared]:
                 out.append(("reward does not match the number of cleared rows",
                             f"cleared {cleared} reward {float(ts.reward)}"))
@@ -220,6 +308,8 @@ class M(Model):
             if diff < 0 or diff % self.C or diff // self.C > 4:
                 return None  # not a legal transition (C07/C09 report it)
             total += REWARDS[diff // self.C]
+            if diff:
+                _stat(f"Tetris objective clear {diff // self.C}")
         return total, 1e-3
 
     # ---- C09
@@ -295,6 +385,8 @@ class M(Model):
         if g.shape != (self.R + 3, self.C + 3):
             return [("grid_padded shape", str(g.shape))]
         want = np.clip(g[: self.R, : self.C], 0, 1)
+        if np.asarray(s.full_lines).any():
+            _stat(f"Tetris observe_check clear {int(np.asarray(s.full_lines).sum())}")
         og = np.asarray(obs.grid)
         if og.shape != want.shape or not np.array_equal(og, want):
             out.append(("grid is not the occupied cells of the state clipped to 0/1", ""))
@@ -443,18 +535,6 @@ def _check_clear(R, C, boards, colours):
     return out
 
 
-def _greedy_score(occ, piece, x):
-    """Heuristic value of a legal placement (plan bias only, never an oracle): few holes, low and flat
-    stack, keep the last column free as a well so that several rows get cleared at once."""
-    g, n, _ = place_and_clear(occ, piece, x)
-    R, C = g.shape
-    heights = np.where(g.any(axis=0), R - np.argmax(g, axis=0), 0)
-    holes = int(sum((~g[R - heights[c]:, c]).sum() for c in range(C)))
-    bump = int(np.abs(np.diff(heights[:-1])).sum()) if C > 2 else 0
-    well = int(g[:, C - 1].sum()) if n == 0 else 0
-    return 10 * n * n - 5 * holes - int(heights.sum()) - bump - 4 * well
-
-
 def _step_problems(m, hs, a, hs2, hts2):
     """Full comparison of one env transition with the rule model, including the part of the termination
     rule that `predict` cannot decide because it depends on the randomly drawn next piece."""
@@ -491,7 +571,7 @@ def _episode_check(b, key, picks):
             pool = np.argwhere(L | ~L)
         if mode == 2 and L.any():
             occ, rots = m._occ(hs), m.P[m._idx(hs)]
-            scores = [_greedy_score(occ, rots[rr], xx) for rr, xx in pool]
+            scores = [greedy_score(occ, rots[rr], xx) for rr, xx in pool]
             best = [k for k, sc in enumerate(scores) if sc == max(scores)]
             a = np.asarray(pool[best[r % len(best)]], b.act_dtype)
         else:
